@@ -86,6 +86,11 @@ def make_values(rng, k, kind=None):
         pool = ([i for i in range(-5, 40)] + [x / 4 for x in range(-19, 160) if x % 4] +
                 ['p', 'q', 'r', 's', 'tt', 'u', 'vv', 'w'])
         vals = rng.sample(pool, k)
+    elif kind == 'numix':
+        # ints and non-integral floats in one list: they compare fine with each other (a sorted union is well defined)
+        vals = rng.sample([i for i in range(-5, 40)] + [x / 4 for x in range(-19, 160) if x % 4], k)
+        if k >= 2 and all(isinstance(v, int) for v in vals): vals[0] = vals[0] + 0.5
+        if k >= 2 and all(isinstance(v, float) for v in vals): vals[0] = int(vals[0] // 1) - 50
     elif kind == 'int':
         vals = rng.sample(range(-5, 40 + 2 * k), k)
     elif kind == 'float':
